@@ -96,6 +96,22 @@ class Runner:
             remote_complete = {(ce[0], ce[1], ce[2]) for ce in inst.cerec.events if not ce[3]}
             if remote_complete & set(inst.exec_log):
                 self.fail('remote-completion-executed-action', f"instance {n} executed the action for a completion learned from a peer")
+            # the same, judged from what the DECIDER announced (the producer's local flag may itself be wrong): per
+            # (pattern, history) no more executions than completions announced with local=True
+            from collections import Counter
+            loc = Counter()
+            for (comp, _h, _u, local) in inst.drec.notifs:
+                if local:
+                    for r in comp:
+                        f = pl.show_rec(r).split('|')
+                        loc[(f[2], hist_key(f[4]))] += 1
+            ex = Counter((e[1], hist_key(e[2])) for e in inst.exec_log)
+            over = ex - loc
+            if over:
+                k0 = sorted(over)[0]
+                self.fail('remote-completion-executed-action',
+                          f"instance {n} executed the action {ex[k0]} time(s) for pattern {k0[0]} / history {k0[1]} but completed "
+                          f"{loc[k0]} such run(s) itself (the others were learned from a peer)")
         # resync-before-incremental (C06): a successful send after an outage >= period_resync must be a RESYNC
         pr = (self.sc.get('periods') or {}).get('period_resync', 60)
         for n, inst in self.c.insts.items():
@@ -183,6 +199,10 @@ class Runner:
                     c.insts[w[1]].outgoing_pass({w[2]: (lambda: c.deliver(w[3], w[1]))})
         elif k == 'del':
             c.deliver(w[1], w[2])
+        elif k == 'delq':
+            # the distributed main thread hands the message to the decider, but the engine thread has not run yet: the
+            # completions wait in the producer's queue until the next engine cycle (e.g. the next input)
+            c.deliver(w[1], w[2], settle=False)
         elif k == 'dup':
             c.net.fail_after_delivery.add((w[1], w[2]))
         elif k == 'down':
